@@ -54,6 +54,15 @@ STATUS_FAULTS = {
     "notset": "kNotset",
     "unbounded_or_infeasible": "kUnboundedOrInfeasible",
     "objective_bound": "kObjectiveBound",
+    # the remaining members of HighsModelStatus: every one of them is "not optimal, not proven infeasible"
+    "model_error": "kModelError",
+    "load_error": "kLoadError",
+    "presolve_error": "kPresolveError",
+    "postsolve_error": "kPostsolveError",
+    "model_empty": "kModelEmpty",
+    "unbounded": "kUnbounded",
+    "objective_target": "kObjectiveTarget",
+    "highs_interrupt": "kHighsInterrupt",
 }
 REAL_FAULTS = ("time_limit_no_incumbent", "solution_limit")
 OTHER_FAULTS = ("time_limit_with_incumbent", "exception", "overshoot")
